@@ -401,6 +401,9 @@ func (repo *GoGitRepo) FetchRefs(remote string, prefixes ...string) (string, err
 		RemoteName: remote,
 		RefSpecs:   refSpecs,
 		Progress:   buf,
+		// only the requested namespaces: by default go-git also follows tags, and creates in the
+		// host repository every remote tag whose object is already known locally
+		Tags: gogit.NoTags,
 	})
 	if err == gogit.NoErrAlreadyUpToDate {
 		return "already up-to-date", nil
